@@ -120,7 +120,7 @@ def run_unit(task):
                 pass
 
     try:
-        st, viol = symx.explore(run, max_paths=caps["paths"], max_wall=caps["wall"], on_path=on_path)
+        st, viol = symx.explore(run, max_paths=caps["paths"], max_wall=caps["wall"], on_path=on_path, path_timeout=caps.get("path_timeout", 120))
     except symx.SymxEngineError as e:
         res["error"] = f"engine: {e}"
         return res
